@@ -368,6 +368,9 @@ impl PreferenceManager {
     }
 
     fn set_speech_files(&mut self, language_dir: &Path, language: &str, new_speech_style: Option<&str>) -> Result<()> {
+        // the language directories are all lower case, language tags customarily are not ("zh-TW", "en-GB")
+        let language = language.to_ascii_lowercase();
+        let language = language.as_str();
         PreferenceManager::unzip_files(language_dir, language, Some("en"))?;
         self.intent = PreferenceManager::find_file(language_dir, language, Some("en"), "intent.yaml")?;
         self.overview = PreferenceManager::find_file(language_dir, language, Some("en"), "overview.yaml")?;
@@ -388,7 +391,7 @@ impl PreferenceManager {
 
     fn set_style_file(&mut self, language_dir: &Path, language: &str, style_file_name: &str) -> Result<()> {
         let style_file_name = style_file_name.to_string() + "_Rules.yaml";
-        self.speech = PreferenceManager::find_file(language_dir, language, Some("en"), &style_file_name)?;
+        self.speech = PreferenceManager::find_file(language_dir, &language.to_ascii_lowercase(), Some("en"), &style_file_name)?;
         return Ok( () );
     }
 
